@@ -789,11 +789,13 @@ def D_AUTO_STARTED := 1   -- sequence != SEQ_INIT: the sub-decoder has been chos
 def autoDecoderInit (memlimit : Nat) : NodeOp :=
   guard I_AUTODEC ⨟ allocSelf S.autoDec skip ⨟ setData D_AUTO_MEMLIMIT (max 1 memlimit) ⨟ setData D_AUTO_STARTED 0
 
-/-- `auto_decoder_memconfig`: forwarded to the sub-decoder once there is one -/
+/-- `auto_decoder_memconfig`: forwarded to the sub-decoder once THIS file's sub-decoder has been chosen
+    (`sequence != SEQ_INIT && next.memconfig != NULL`). Right after a (re-)initialisation `coder->next` may still hold
+    the decoder of the previous file; it is not consulted then: limit = the new init limit, usage = LZMA_MEMUSAGE_BASE. -/
 def autoDecoderMemlimit (new : Nat) : NodeOp := fun n =>
-  if n.sub0.init == I_SDEC && !n.sub0.isNull then      -- coder->next.memconfig != NULL
+  if n.dat D_AUTO_STARTED != 0 && n.sub0.init == I_SDEC && !n.sub0.isNull then
     (onSub0 (streamDecoderMemlimit new) ⨟ setData D_AUTO_MEMLIMIT new) n
-  else if n.sub0.isNull then
+  else if n.dat D_AUTO_STARTED == 0 || n.sub0.isNull then
     (if new < S.memusageBase then failOp MEMLIMIT_ERROR n else setData D_AUTO_MEMLIMIT new n)
   else failOp PROG_ERROR n      -- .lzma / .lz sub-decoders: not modelled (the driver does not compare the code)
 
